@@ -370,7 +370,7 @@ impl Scenario for C10 {
     }
 
     fn rule(&self) -> String {
-        "Each run is one of: (clone) a C05-style prefix history on one of the 19 deterministic types, so that forks happen mid-block and with a half pending, then clone(), `fork == original` where == exists, then a suffix of next_u32/next_u64/fill_bytes/jump/long_jump applied to both in lock-step (identical results, still equal after every op, 2-block drain); (the clone is made with clone() or, in a third of the runs, with clone_from() into an unrelated generator of the same type that is already in use); (two_seeds) two generators or cores built from DIFFERENT, often near-equal (one flipped bit) seeds through any route, compared fresh or after the same public history: if == says equal their futures must be identical; (skew) the converse: after the fork the two sides are advanced by different call shapes (one next_u32, d words inside the block, one whole block, next_u64 vs two next_u32, fill(8) vs two fill(4), random), then `a == b` is evaluated: if it says equal both must have identical futures under the probe suffix, and two Hc128Rng at different read positions of the same block must compare unequal; (bitflip) one bit - or the same bit (mostly the top bit) of two different words, differences that cancel in a checksum-style comparison - of the stored bincode image of a non-buffered generator or of IsaacCore/Isaac64Core is flipped (anywhere, or in the trailing scalar fields a/b/c) and the image deserialised: if original == flipped their futures must be identical; (core) Hc128Core/IsaacCore/Isaac64Core: clone (made with clone(), or with clone_from() into an unrelated core of the same or another age) == original, identical generate() blocks in lock-step, and cores compared after one side ran k extra generate() calls; (isaac_array) two result buffers differing in exactly one element must be unequal, equal contents equal. distinct_nontrivial = distinct (type, fork buffer index, half flag, pair-construction kind, == verdict) signatures. `==`/`!=` are probed per type (a type that gains PartialEq is compared from then on) and every `==` is also evaluated on clones placed at offsets 0/4/8/12 modulo 16 of one heap block: verdicts that disagree are a violation. Skews include next_u32 vs next_u64 (same index, different half flag). Skew pairs also include byte-matched shapes: both sides hand out the same number of bytes through different numbers of words (4 x fill_bytes(1) vs next_u32, 4 x fill(3) vs 3 x fill(4), ...).".into()
+        "Each run is one of: (clone) a C05-style prefix history on one of the 19 deterministic types, so that forks happen mid-block and with a half pending, then clone(), `fork == original` where == exists, then a suffix of next_u32/next_u64/fill_bytes/jump/long_jump applied to both in lock-step (identical results, still equal after every op, 2-block drain); (the clone is made with clone() or, in a third of the runs, with clone_from() into an unrelated generator of the same type that is already in use); (two_seeds) two generators or cores built from DIFFERENT, often near-equal (one flipped bit) seeds through any route, compared fresh or after the same public history: if == says equal their futures must be identical; (skew) the converse: after the fork the two sides are advanced by different call shapes (one next_u32, d words inside the block, one whole block, next_u64 vs two next_u32, fill(8) vs two fill(4), random), then `a == b` is evaluated: if it says equal both must have identical futures under the probe suffix, and two Hc128Rng at different read positions of the same block must compare unequal; (bitflip) one bit - or the same bit (mostly the top bit) of two different words, differences that cancel in a checksum-style comparison - of the stored bincode image of a non-buffered generator or of IsaacCore/Isaac64Core is flipped (anywhere, or in the trailing scalar fields a/b/c) and the image deserialised: if original == flipped their futures must be identical; (core) Hc128Core/IsaacCore/Isaac64Core: clone (made with clone(), or with clone_from() into an unrelated core of the same or another age) == original, identical generate() blocks in lock-step, and cores compared after one side ran k extra generate() calls; (isaac_array) two result buffers differing in exactly one element must be unequal, equal contents equal. distinct_nontrivial = distinct (type, fork buffer index, half flag, pair-construction kind, == verdict) signatures. `==`/`!=` are probed per type (a type that gains PartialEq is compared from then on) and every `==` is also evaluated on clones placed at offsets 0/4/8/12 modulo 16 of one heap block: verdicts that disagree are a violation. Skews include next_u32 vs next_u64 (same index, different half flag). Skew pairs also include byte-matched shapes: both sides hand out the same number of bytes through different numbers of words (4 x fill_bytes(1) vs next_u32, 4 x fill(3) vs 3 x fill(4), ...). (eq_birthday, one run in 66) 4096 Hc128Rng from unrelated seeds, all pairs compared with ==; a pair that compares equal goes through the two_seeds oracle.".into()
     }
     fn assumptions(&self) -> Vec<String> {
         vec![
